@@ -341,7 +341,8 @@ class ProfileNode(WeaklyCached):
         for line, lineno, relpath in iterable:
             v = line.split()
             try:
-                yield (atom(v[0]), tuple(stable_unique(v[1:])))
+                # incremental tokens: the last occurrence of a repeated one decides
+                yield (atom(v[0]), tuple(reversed(stable_unique(reversed(v[1:])))))
             except ebuild_errors.MalformedAtom as e:
                 logger.error(f"{relpath!r}, line {lineno}: parsing error: {e}")
 
